@@ -531,7 +531,11 @@ func runC19(res *hx.Result, rng *hx.Rng, tier string, outdir string) {
 	res.Rule = "scenario = k goroutines (2..16) asking one session for proxies of services behind 1..3 endpoints other than the directory's, " +
 		"some after warm-up requests; harness listeners hold the authentication reply until every goroutine that must dial has connected " +
 		"(all past the first lookup, none in the write-locked section), then release them together; each scenario in a child process; " +
-		"non-trivial = at least two goroutines miss the first lookup for the same endpoint; distinct by scenario text"
+		"non-trivial = at least two goroutines miss the first lookup for the same endpoint; distinct by scenario text. " +
+		"life = 3..10 phases on one session (1..3 endpoints, 1..5 services): bursts of 1..6 Proxy / Object / Session.client requests (in turn, or together under the same forced schedule), " +
+		"losses of a pooled connection with the services still registered (server closes the socket / server sends garbage / client endpoint closed; the harness waits until the pool dropped it), " +
+		"services unregistered and registered again behind another endpoint, a final Object + Proxy request per service; connections accepted/open and pooled endpoints recorded after every phase; " +
+		"non-trivial = some request asks for a service behind an endpoint whose connection was lost before"
 	// probe: the witness of C19_refuted_runlock_after_lock — two goroutines, one endpoint, both miss
 	probe := c19Scenario{Eps: []int{0, 0}, Hook: []bool{true, false}, NEnd: 1}
 	po := c19RunChild(probe, outdir, 999)
